@@ -23,6 +23,7 @@ type thr struct {
 	resume  chan bool // true = go on, false = die
 	pending *Op
 	done    bool
+	dying   bool // unwinding after Kill
 }
 
 type killed struct{}
@@ -60,6 +61,7 @@ func (s *Sched) Spawn(f func()) int {
 			s.yielded <- struct{}{}
 		}()
 		if !<-t.resume {
+			t.dying = true
 			panic(killed{})
 		}
 		f()
@@ -86,10 +88,16 @@ func Yield(op *Op) bool {
 		return false
 	}
 	t := s.cur
+	if t.dying {
+		// the thread is unwinding after Kill: operations of its deferred calls (e.g. a deferred
+		// Unlock) run directly; yielding here would park the goroutine forever
+		return false
+	}
 	t.pending = op
 	s.cur = nil
 	s.yielded <- struct{}{}
 	if !<-t.resume {
+		t.dying = true
 		panic(killed{})
 	}
 	return true
